@@ -289,6 +289,44 @@ func runC08(c *core.Ctx) {
 			}
 		}
 	}
+	// legitimate but hostile shape: 9 layers of recipes, each listing every recipe of the next layer
+	// (longest chain below the default limit, the number of paths is width^8): must terminate
+	for _, width := range []int{6, 16} {
+		var sb strings.Builder
+		for l := 1; l <= 9; l++ {
+			for k := 0; k < width; k++ {
+				fmt.Fprintf(&sb, "L%d_%d:\n", l, k)
+				for j := 0; j < width; j++ {
+					if l < 9 {
+						fmt.Fprintf(&sb, "  L%d_%d: 1\n", l+1, j)
+					}
+				}
+				if l == 9 {
+					sb.WriteString("  x: 1\n")
+				}
+			}
+		}
+		wdir := filepath.Join(c.Work, fmt.Sprintf("wide%d", width))
+		run.WriteFiles(wdir, map[string]string{"food.yaml": sb.String(), "log.yaml": "2021/01/24:\n  L1_0: 1\n  L5_1: 2\n"})
+		for _, cmd := range [][]string{{"reg"}, {"report", "totals"}, {"csv", "database-resolved"}, {"bal", "-s", "x"}} {
+			args := append([]string{"--no-color", "-d", "food.yaml", "-l", "log.yaml"}, cmd...)
+			res := run.Exec(c.HR, args, run.ExecOpts{Dir: wdir, Timeout: 60 * time.Second})
+			c.Eval(1)
+			c.Count("wide_layered_book_runs", 1)
+			c.Nontrivial("wide", fmt.Sprint(width), joinArgs(cmd))
+			doc := caseDoc{Args: args, Note: fmt.Sprintf("book of 9 layers x %d recipes, each listing every recipe of the next layer (%d lines); longest chain 9 < default limit 10", width, strings.Count(sb.String(), "\n")), Observed: resDoc(res)}
+			if res.TimedOut {
+				again := run.Exec(c.HR, args, run.ExecOpts{Dir: wdir, Timeout: 120 * time.Second})
+				if again.TimedOut {
+					c.Violation(strings.Join(cmd, " ")+"|hang", fmt.Sprintf("no termination within 120 s on a legitimate book of 9 layers x %d recipes", width), doc)
+				} else {
+					c.Inconclusive("watchdog", "wide layered book: first run exceeded 60 s, isolated re-run finished")
+				}
+			} else if res.Crashed() || res.Exit != 0 {
+				c.Violation(strings.Join(cmd, " ")+"|fails-on-wide-book", clip(res.Serr, 300), doc)
+			}
+		}
+	}
 	jobs, deaths := pool.Stats()
 	c.Count("l2_jobs", jobs)
 	c.Count("l2_process_deaths", deaths)
